@@ -30,6 +30,17 @@ NS = {"D": "DAV:", "C": "urn:ietf:params:xml:ns:caldav"}
 QUERY = ('<?xml version="1.0"?><C:calendar-query xmlns:D="DAV:" xmlns:C="urn:ietf:params:xml:ns:caldav"><D:prop><D:getetag/>'
          '<C:calendar-data/></D:prop><C:filter><C:comp-filter name="VCALENDAR"/></C:filter></C:calendar-query>')
 PROPFIND = '<?xml version="1.0"?><D:propfind xmlns:D="DAV:"><D:prop><D:getetag/></D:prop></D:propfind>'
+# calendar-query with a time-range: the cache entry also holds the object's enclosing time range, which the storage layer's
+# pre-selection works from (all generated events lie on 2024-01-02 10:00-11:00)
+TIME_RANGES = ['start="20240103T000000Z"', 'start="20240101T000000Z"', 'end="20240101T000000Z"', 'end="20240103T000000Z"',
+               'start="20240102T090000Z" end="20240102T103000Z"', 'start="20240102T110000Z" end="20240102T120000Z"',
+               'start="20240102T105959Z"', 'end="20240102T100000Z"']
+
+
+def query_tr(tr):
+    return ('<?xml version="1.0"?><C:calendar-query xmlns:D="DAV:" xmlns:C="urn:ietf:params:xml:ns:caldav"><D:prop><D:getetag/>'
+            '<C:calendar-data/></D:prop><C:filter><C:comp-filter name="VCALENDAR"><C:comp-filter name="VEVENT"><C:time-range %s/>'
+            '</C:comp-filter></C:comp-filter></C:filter></C:calendar-query>' % tr)
 
 HREFS = ["a.ics", "b.ics", "c.ics", "d.ics"]
 UIDS = ["u1", "u2", "u3", "u4", "u5"]
@@ -349,7 +360,7 @@ def run_history(ctx, rng, hid, length):
                     p.expect.append(("get", d, None, href))
                 nontrivial = True
             elif k < 0.5:
-                r, events = p.both("REPORT", base, QUERY)
+                r, events = p.both("REPORT", base, QUERY if rng.random() < 0.5 else query_tr(rng.choice(TIME_RANGES)))
                 served = {}
                 if r["status"] == 207:
                     for row in r["rows"]:
